@@ -35,33 +35,33 @@ Theorem crash_safe_finalize :
 Proof. exact crash_safe_finalize_l. Qed.
 Print Assumptions crash_safe_finalize.
 
-Theorem crash_safe_prune_refuted :
+Theorem crash_safe_prune_original_refuted :
   let c := c_run cdb0 h_prune_crash in
-  fst (run_all c (OPrune 1)) = EOk /\
-  let c1 := reopen (run_until 1 c (OPrune 1)) in
-  fst (retry c1 (OPrune 1)) = ERootNotFound /\ snd (retry c1 (OPrune 1)) = c1 /\
+  fst (run_all_orig c (OPrune 1)) = EOk /\
+  let c1 := reopen (run_until_orig 1 c (OPrune 1)) in
+  fst (retry_orig c1 (OPrune 1)) = ERootNotFound /\ snd (retry_orig c1 (OPrune 1)) = c1 /\
   d_earliest (b_meta (c_b c1)) = 1 /\ inv (c_b c) /\ prune_safe (c_b c) 1 = true.
 Proof. exact crash_safe_prune_refuted_l. Qed.
-Print Assumptions crash_safe_prune_refuted.
+Print Assumptions crash_safe_prune_original_refuted.
 
 Theorem crash_safe_prune :
   forall c ver k,
   let o := OPrune ver in
   inv (c_b c) -> rk_inv c -> prune_safe (c_b c) ver = true ->
-  (k < length (snd (plan_alt c o)))%nat ->
-  let c1 := reopen (run_until_alt k c o) in
+  (k < length (snd (plan c o)))%nat ->
+  let c1 := reopen (run_until k c o) in
   b_meta (c_b c1) = b_meta (c_b c) /\ b_aux (c_b c1) = b_aux (c_b c) /\
   (forall v r, ver < v -> has_rid r (roots_at (b_meta (c_b c)) v) = true ->
      visible r v (c_rk c1) = true /\
      forall n, In n (a_reach (aux_get v r (b_aux (c_b c)))) -> visible n v (b_store (c_b c1)) = true) /\
-  fst (run_all_alt c1 o) = EOk /\ snd (run_all_alt c1 o) = snd (run_all_alt c o).
+  fst (run_all c1 o) = EOk /\ snd (run_all c1 o) = snd (run_all c o).
 Proof. exact crash_safe_prune_alt_l. Qed.
 Print Assumptions crash_safe_prune.
 
-Theorem crash_safe_prune_repair_on_witness :
+Theorem crash_safe_prune_on_witness :
   let c := c_run cdb0 h_prune_crash in
-  let c1 := reopen (run_until_alt 1 c (OPrune 1)) in
-  fst (run_all_alt c1 (OPrune 1)) = EOk /\ snd (run_all_alt c1 (OPrune 1)) = snd (run_all_alt c (OPrune 1)) /\
-  snd (run_all_alt c (OPrune 1)) = snd (run_all c (OPrune 1)).
+  let c1 := reopen (run_until 1 c (OPrune 1)) in
+  fst (retry c1 (OPrune 1)) = EOk /\ snd (retry c1 (OPrune 1)) = snd (run_all c (OPrune 1)) /\
+  snd (run_all c (OPrune 1)) = snd (run_all_orig c (OPrune 1)).
 Proof. exact crash_prune_alt_witness. Qed.
-Print Assumptions crash_safe_prune_repair_on_witness.
+Print Assumptions crash_safe_prune_on_witness.
